@@ -25,6 +25,8 @@ type c11Sys struct {
 	Classes []string `json:"classes,omitempty"`
 	After   string   `json:"after,omitempty"`
 	MaxK    int      `json:"-"`
+	// Damage: no system call fails; the session itself damages an input table on disk before it compacts
+	Damage bool `json:"damage,omitempty"`
 }
 
 func c11SysSessions() []c11Sys {
@@ -77,8 +79,16 @@ func c11SystemHalf(ctx *core.Ctx) error {
 			}
 		}
 	}
+	// a compaction whose input went bad on disk after it was loaded: the cycle must fail, or whatever it installs must
+	// still read as the reference
+	{
+		small := sess.Cfg{Mem: 1 << 20, Thresh: 1, Ratio: 1.0, RBuf: 4096, WBuf: 16}
+		ops := []sess.Op{{Op: "put", K: "a", V: "x"}, {Op: "put", K: "b", V: "I80"}, {Op: "rotwait"}, {Op: "put", K: "a", V: "y"}, {Op: "rotwait"}, {Op: "put", K: "c", V: "x"}, {Op: "rotwait"},
+			{Op: "corrupt"}, {Op: "compact"}, {Op: "get", K: "a"}, {Op: "get", K: "b"}, {Op: "get", K: "c"}, {Op: "close"}}
+		cases = append(cases, core.J(c11Case{Sys: &c11Sys{Name: "compaction-of-a-damaged-input", Sess: mkDBSession(small, ops...), K: -1, Damage: true}}))
+	}
 	ctx.Ev.Bounds["system_half_runs"] = len(cases)
-	ctx.Ev.Notes = append(ctx.Ev.Notes, "system half: a session with flushes, one with flushes + a compaction, and one whose second Open flushes a WAL left behind by an abandoned handle (fault on the calls of that Open) run in a traced child; the k-th mutating system call of the flusher/compactor classes (write, open-with-create, mkdir, unlink, rename) is replaced by -EIO / -ENOSPC (thorough: also short writes), for every k; the process must stop, or the failing API call must return an error; afterwards a fresh process must recover the directory to the reference of acknowledged operations (an incomplete table or compaction is never installed over good data); a process that neither stops nor reports (all threads parked) is classified as absorbed")
+	ctx.Ev.Notes = append(ctx.Ev.Notes, "system half: a session with flushes, one with flushes + a compaction, and one whose second Open flushes a WAL left behind by an abandoned handle (fault on the calls of that Open) run in a traced child (plus one session that flips a bit in an input table before a compaction cycle); the k-th mutating system call of the flusher/compactor classes (write, open-with-create, mkdir, unlink, rename) is replaced by -EIO / -ENOSPC (thorough: also short writes), for every k; the process must stop, or the failing API call must return an error; afterwards a fresh process must recover the directory to the reference of acknowledged operations (an incomplete table or compaction is never installed over good data); a process that neither stops nor reports (all threads parked) is classified as absorbed")
 	rs := ctx.Pmap(cases)
 	ctx.Fold(rs, cases)
 	for i, r := range rs {
@@ -92,6 +102,9 @@ func c11SystemHalf(ctx *core.Ctx) error {
 func (c c11) sysCase(w *core.WCtx, cs *c11Sys) core.Result {
 	var r core.Result
 	r.Extra = map[string]int64{}
+	if cs.Damage {
+		return c.damageCase(w, cs)
+	}
 	dir := w.Dir()
 	dbdir := filepath.Join(dir, "db")
 	mustMkdir(dbdir)
@@ -195,5 +208,63 @@ func (c c11) sysCase(w *core.WCtx, cs *c11Sys) core.Result {
 	if cs.K == 9 && cs.Errno == 5 && cs.Name == "flush" {
 		r.Sample = string(core.J(map[string]any{"kind": "syscall fault", "session": sessStr(cs.Sess), "failed_call": what, "outcome": outcome}))
 	}
+	return r
+}
+
+// damageCase: the session damages the oldest table on disk and then runs a compaction cycle over it.
+func (c c11) damageCase(w *core.WCtx, cs *c11Sys) core.Result {
+	var r core.Result
+	r.Extra = map[string]int64{}
+	dir := w.Dir()
+	dbdir := filepath.Join(dir, "db")
+	mustMkdir(dbdir)
+	sp := writeSession(dir, cs.Sess)
+	tr := ktrace.Run(ktrace.Options{Dir: dbdir, Argv: []string{binPath("vchild"), "run", dbdir, sp}, HangAfter: 10 * time.Second, NoImages: true})
+	name := fmt.Sprintf("session %s [%s]", cs.Name, sessStr(cs.Sess))
+	viol := func(f string, a ...any) {
+		r.Viol = append(r.Viol, core.Violation{Desc: name + ": " + fmt.Sprintf(f, a...), Case: core.J(c11Case{Sys: cs})})
+	}
+	if tr.Err != nil {
+		viol("tracer: %v", tr.Err)
+		return r
+	}
+	r.Traces++
+	r.Key = core.HashKey(name)
+	ref := map[string]string{}
+	reported := false
+	for _, e := range tr.Events {
+		if e.Kind != "marker" {
+			continue
+		}
+		var i int
+		switch {
+		case strings.HasPrefix(e.Marker, "A "):
+			fmt.Sscanf(e.Marker, "A %d", &i)
+			if op := cs.Sess.Ops[i]; op.Op == "put" {
+				ref[op.K] = dumpEncode(sess.Value(op.V))
+			} else if op.Op == "del" {
+				delete(ref, op.K)
+			}
+		case strings.HasPrefix(e.Marker, "FAIL "):
+			reported = true
+		case strings.HasPrefix(e.Marker, "G "):
+			parts := strings.SplitN(e.Marker, " ", 3)
+			fmt.Sscan(parts[1], &i)
+			want, ok := ref[cs.Sess.Ops[i].K]
+			r.Evals++
+			if (!ok && parts[2] != "-") || (ok && parts[2] != "="+want) {
+				viol("the compaction cycle over the damaged table reported success, afterwards Get(%s) reads %q, written %q", cs.Sess.Ops[i].K, parts[2], want)
+			}
+		}
+	}
+	switch {
+	case tr.Hung:
+		viol("the process neither stopped nor returned after the damaged input was compacted")
+	case reported || tr.ExitCode != 0 || tr.Signaled:
+		r.Extra["outcome: damaged input reported by the compaction cycle"]++
+	default:
+		r.Extra["outcome: compaction over the damaged table succeeded and reads are intact"]++
+	}
+	r.Outcome = "sys damage"
 	return r
 }
